@@ -2,6 +2,8 @@ package main
 
 import (
 	"fmt"
+	"os"
+	"time"
 	"strings"
 
 	"verif/harness/hlib"
@@ -49,7 +51,14 @@ func chain3(c *hlib.Ctx) {
 		if i == 0 && (g.label == "tetra" || g.label == "octa") && c.Rng.Intn(2) == 0 {
 			forced = []int{8, 10, 6}[c.Rng.Intn(3)] // exact Loop / Blur / SubdivideEdges on the regular solids
 		}
+		t0 := time.Now()
 		r := runOp3(c, st, m, forced)
+		if el := time.Since(t0); el > time.Second {
+			c.Stat(fmt.Sprintf("slow-op(>1s):%s", r.kind), 1)
+			if os.Getenv("C10_VERBOSE") != "" {
+				fmt.Fprintln(os.Stderr, "slow", r.kind, r.params, el, "faces", len(st.soup), g.label)
+			}
+		}
 		if r.skipped {
 			continue
 		}
@@ -66,11 +75,21 @@ func chain3(c *hlib.Ctx) {
 				timeouts[r.kind]++
 			}
 			c.Stat("status:"+r.kind+":"+strings.SplitN(r.status, ":", 2)[0], 1)
-			emitLine(c, append(head, "O", r.status, "K 0")...)
+			emitLine(c, append(head, "O", r.status, "K 0", st.ids.coordSection(usedIDs3(st.soup)))...)
 			return
 		}
 		out := st.ids.soup(r.out)
 		moveOnly := r.kind == "blur3" || r.kind == "smooth3" || r.kind == "arap3" || r.kind == "flatten3"
+		if r.kind == "loop3" && r.coords && len(usedIDs3(out)) < len(usedIDs3(st.soup))+numEdges3(st.soup) {
+			// the published masks put two new vertices on the same point (exact arithmetic, checked by
+			// the model): the placement is not injective on this input - a hypothesis, not the code
+			c.Stat("hypothesis-failed(loop-placement-not-injective):loop3", 1)
+			r.params = append(r.params, "noninj")
+			head = []string{r.kind, "P", fmt.Sprint(len(r.params))}
+			head = append(head, r.params...)
+			head = append(head, "I", soupStr3(st.soup))
+			r.exact = false
+		}
 		if moveOnly && len(usedIDs3(out)) != len(usedIDs3(st.soup)) {
 			// the vertex map of a move-only operation is not injective on this input (e.g. a regular
 			// solid blurred onto its centre): the hypothesis of relabel_preserves fails, not the code
@@ -245,7 +264,7 @@ func runChain2(c *hlib.Ctx, g mesh2, nops int, forced []int) {
 				timeouts[kind]++
 			}
 			c.Stat("status:"+kind+":"+strings.SplitN(status, ":", 2)[0], 1)
-			emitLine(c, append(head, "O", status, "K 0")...)
+			emitLine(c, append(head, "O", status, "K 0", st.ids.coordSection(usedIDs2(st.soup)))...)
 			return
 		}
 		o := st.ids.soup(out)
@@ -324,4 +343,18 @@ func tooSmall3(m *model3d.Mesh) bool {
 		}
 	})
 	return small
+}
+
+func numEdges3(soup [][3]int) int {
+	set := map[[2]int]bool{}
+	for _, t := range soup {
+		for i := 0; i < 3; i++ {
+			a, b := t[i], t[(i+1)%3]
+			if a > b {
+				a, b = b, a
+			}
+			set[[2]int{a, b}] = true
+		}
+	}
+	return len(set)
 }
